@@ -232,3 +232,51 @@ Proof.
     - apply IH. rewrite foreign_step by exact Ho. exact V. }
   apply G. reflexivity.
 Qed.
+
+(* ---- the frames of a live process are the single-process bookkeeping of Runtime/Agent.v over its own firings ---- *)
+Fixpoint fires_of (p : nat) (evs : list pev) : list hev :=
+  match evs with
+  | [] => []
+  | PFire q e :: t => if Nat.eqb q p then e :: fires_of p t else fires_of p t
+  | _ :: t => fires_of p t
+  end.
+
+Definition no_exit (p : nat) (evs : list pev) : Prop := forall e, In e evs -> e <> PExit p.
+Definition untouched (p : nat) (evs : list pev) : Prop := forall e, In e evs -> own p e = false.
+
+Lemma live_run p : forall post st fs,
+  no_exit p post -> view p st = (true, Some fs, false) ->
+  view p (fold_left (g_step true) post st) = (true, Some (fold_left (a_step rule_repaired) (fires_of p post) fs), false).
+Proof.
+  induction post as [|e post IH]; intros st fs Hn V; cbn [fold_left fires_of]; auto.
+  assert (Hn' : no_exit p post) by (intros x Hx; apply Hn; right; exact Hx).
+  destruct (own p e) eqn:Ho.
+  - pose proof (own_view true st e p Ho) as OV. rewrite V in OV.
+    destruct e as [q|q ev|q]; cbn [own] in Ho; apply Nat.eqb_eq in Ho; subst q.
+    + cbn [vstep] in OV. apply (IH _ fs Hn' OV).
+    + cbn [vstep andb negb] in OV. rewrite Nat.eqb_refl. cbn [fold_left]. apply (IH _ _ Hn' OV).
+    + exfalso. apply (Hn (PExit p)); auto. left. reflexivity.
+  - assert (E : fires_of p (e :: post) = fires_of p post).
+    { destruct e as [q|q ev|q]; cbn [fires_of]; auto. cbn [own] in Ho. rewrite Ho. reflexivity. }
+    cbn [fires_of] in E. rewrite E. apply IH; auto. rewrite foreign_step by exact Ho. exact V.
+Qed.
+
+Theorem live_frames pre post p :
+  untouched p pre -> no_exit p post ->
+  frames_for p (g_run true (pre ++ PAccept p :: post)) = a_run rule_repaired (fires_of p post)
+  /\ mem p (g_procs (g_run true (pre ++ PAccept p :: post))) = true.
+Proof.
+  intros Hu Hn. unfold g_run. rewrite fold_left_app. cbn [fold_left].
+  set (st0 := fold_left (g_step true) pre ag0).
+  assert (V0 : view p st0 = (false, None, false)).
+  { assert (G : forall evs s0, untouched p evs -> view p (fold_left (g_step true) evs s0) = view p s0).
+    { induction evs as [|e evs IH]; cbn [fold_left]; auto. intros s0 Hu0.
+      rewrite IH by (intros x Hx; apply Hu0; right; exact Hx). apply foreign_step, Hu0. left. reflexivity. }
+    unfold st0. rewrite G by exact Hu. reflexivity. }
+  assert (V1 : view p (g_step true st0 (PAccept p)) = (true, Some [], false)).
+  { rewrite (own_view true st0 (PAccept p) p) by (cbn; apply Nat.eqb_refl). rewrite V0. reflexivity. }
+  set (st1 := g_step true st0 (PAccept p)) in *.
+  pose proof (live_run p post st1 [] Hn V1) as V. set (st2 := fold_left (g_step true) post st1) in *.
+  unfold view in V. injection V as V1' V2' _.
+  split; auto. unfold frames_for. rewrite V2'. reflexivity.
+Qed.
